@@ -11,15 +11,43 @@ E3 = 'E3 environment-deviation DFS (scripted io environment)'
 E4 = 'E4 controlled scheduler on overlay-instrumented source + footprint oracles'
 
 # id -> (engine, category, technique, level text, level note, design ref)
+def e1(what, space, oracle, rest=''):
+    return (E1, 'exploration', 'bounded-exhaustive input enumeration vs independent reference (' + what + ')',
+            'Every member of a declared finite input space (' + space + ') is executed on the real functions and compared with ' + oracle + '. Complete below the stated bounds, nothing sampled; the evidence carries the enumerated count next to the closed-form cardinality of the declared space. Right level: the code is short word arithmetic whose case splits are driven by small quantities that the bounds cover several times over.' + rest,
+            'Trusted: the reference model, the Go toolchain. Not covered: inputs outside the declared alphabets/bounds (DESIGN.md section 7).')
+
 CHECKS = {
-    'C01': (E1, 'exploration',
-            'bounded-exhaustive enumeration of bitmaps x positions against a running bit count',
-            'Every bitmap of a declared finite space (<=6 words over a 12-word core alphabet, <=4 words with one word from a 245-word wide alphabet; thorough 7/5) x every position x every index flavour is executed on the real Rank64/Rank128/IndexRank64/IndexRank128 and compared with a bit-by-bit count; complete below the bound, nothing sampled. Right level: the functions are loop-free word arithmetic whose case splits (bit offset, word parity, 128-bit half) are all inside the bound.',
-            'Trusted: the bit-loop reference; Go compiler/runtime. Not covered: words outside the alphabets, bitmaps longer than the bound.',
-            'DESIGN.md section 4 C01'),
+    'C01': e1('running bit count', 'bitmaps <=6 words over a 12-word core alphabet and <=4 words with one word from a 245-word wide alphabet (thorough 7/5) x every position x every index flavour', 'a bit-by-bit running count') + ('DESIGN.md section 4 C01',),
+    'C02': e1('naive 1-position scan', 'the C01 bitmap spaces plus the byte-lane sweep (every byte value in every lane under every 00/ff background, 3 embeddings) x every valid i x both selects and both index builders', 'the list of 1-positions of a naive scan') + ('DESIGN.md section 4 C02',),
+    'C03': e1('recursive pre-order walk, release and -tags debug builds', 'every level mask of height <=12 x every node, plus mask/path families for every height <=30; the same enumeration again in a second binary built with -tags debug (complete to height 10)', 'an explicit recursive pre-order walk numbering stored nodes (closed form for tall trees, cross-checked against the walk)', ' Two configurations (release, debug contracts) are both enumerated.') + ('DESIGN.md section 4 C03',),
+    'C04': e1('filter of the reference node list', 'every level mask of height <=5 x every ordered (from,to) pair of a boundary set around every node, height 6 with {p,p+-1} pairs, tall sparse masks to height 30 with narrow windows; Decode on every subset bitmap of masks with <=16 stored nodes x 4 bitmap shapes and empty/full/singleton/pair subsets to height 6', 'the stored nodes of the recursive walk, sorted and filtered') + ('DESIGN.md section 4 C04',),
+    'C05': e1('pre-order successor walk over the WHOLE domain', 'the entire domain: all 2^32-33 (height, index) pairs, in both tiers', 'a pre-order successor function walked in index order, both directions (IndexToPath and PathToIndex) judged against it', ' This check is complete over its whole domain, not only below a bound.') + ('DESIGN.md section 4 C05',),
+    'C08': e1("'0'/'1' bit-string arithmetic", 'all strings of length <=2 over all 256 bytes and <=4 over 8 bytes x 4 widths; every in-range word list to a width-dependent length; every ordered string pair x every (from,end) window', "the string's bit rendering cut into n-bit groups") + ('DESIGN.md section 4 C08',),
+    'C09': e1("Go string order on '0'/'1' renderings", 'sources (s,from,to) over a 6-byte alphabet with stems of 7/8/9 bytes x every bit range; Cmp on ALL ordered pairs of distinct bit strings; CmpUpto/StrCmpUpto on plain strings x all encodings, StrCmpUpto from an alphabet of 8 call frames x 2 dead-stack patterns', "comparison of the '0'/'1' renderings (lexicographic, prefix first)") + ('DESIGN.md section 4 C09',),
+    'C10': e1("'0'/'1' strings and string order", 'every height <=32 x length <=min(h,10) x every prefix, and every ordered pair of equal height', "the prefix as a '0'/'1' string; pre-order = string order") + ('DESIGN.md section 4 C10',),
+    'C11': e1('slice of the bit string', 'every string of length <=5 over 6 bytes x every start bit in [0,8len+9] x every width 0..32; PathsOf on key lists of length <=4', "a slice of the string's '0'/'1' rendering, zero-extended") + ('DESIGN.md section 4 C11',),
+    'C12': e1('set of ints; all Builder histories to depth 3', 'every subset of 11 boundary positions x 11 sizes x every probe in [-70, 64w+70); every OfMany sequence of <=3 segments (192-segment alphabet) in the domain; every Builder history of <=3 operations over a 216-operation alphabet (and 4..5 over a 10-operation one) from two builders', 'a set-of-ints model (bits, running offset, word count)') + ('DESIGN.md section 4 C12',),
+    'C13': e1('linear scan', 'every bitmap of 1..5 words over a 7-word alphabet x every range 0<=i<=end<=64len', 'a linear scan of the range') + ('DESIGN.md section 4 C13',),
+    'C14': e1('bit copy / popcount accounting', '7 widths x every value list of length <=5 over 5 values and long lists with <=2 deviations; every bitmap of <=3 words over 5 words x every 0<=from<=to<=64len', 'low-w-bit extraction, popcount accounting and a bit-by-bit copy (result length included, input unchanged)') + ('DESIGN.md section 4 C14',),
+    'C16': e1('first difference / distinct truncations of bit strings', 'every non-empty subset of several small key universes behind stems of 0/7/8/9/16/17 bytes x every [s,e) x 6 values of m', "first differing index of the '0'/'1' renderings and the number of distinct truncated bit strings") + ('DESIGN.md section 4 C16',),
+    'C17': e1('clause-by-clause verdict', 'the C16 key sets x every maxSize in 1..len+1', 'the clauses of the statement evaluated directly (boundaries, sizes, longest common prefix by comparison, strict prefix order)') + ('DESIGN.md section 4 C17',),
+    'C20': e1('size computed while building', 'every type of the kind grammar to depth 2 (thorough 3) built with reflect x a value-shape alphabet; Of and 10 Stat forms per value', 'the size the generator computed bottom-up while building the value') + ('DESIGN.md section 4 C20',),
+    'C15': (E2, 'model_checking', 'explicit-state BFS over real TailBitmap objects with a set model and an invariant on every transition',
+            'All states reachable from 11 starts (empty at 3 offsets, three prefilled words in 3 fill orders x 2 offsets, two starts crossing the real 1024-word reclaim threshold) under the per-state alphabet {Set(every hole), Set below Offset, Set beyond the end, Set of a set bit, Compact} are generated by cloning the real object and calling the real method; the full invariant (all Get/Get1 in a window, Offset alignment/monotonicity, no skipped 0, first word not all-ones, Compact changes no Get) is evaluated after EVERY transition before deduplication by a key of every field; every state is re-reached by fresh replay of its shortest path. Right level: the property is about histories of a small mutable object whose reachable state space under this alphabet is finite and fully searched.',
+            'Trusted: the set-of-ints model; the clone (struct copy + deep copy of Words). Histories outside the alphabet are not covered.', 'DESIGN.md section 4 C15'),
+    'C18': (E2, 'model_checking', 'BFS over cursor states x every operation x every answer of a scripted underlying WriterAt, plus unmerged sequences',
+            'For 10 sections every cursor state reachable inside a window is expanded with every operation of the alphabet (Write/WriteAt with buffers 0..6, Seek with every whence/offset) x every answer of the underlying writer (full, short with error, short without error), executed on a real SectionWriter and compared with the statement\'s cursor model: return values, exact (offset, bytes) calls received, containment, cursor afterwards, Size. All sequences of depth <=3 over a reduced alphabet run without state merging; AtToWriter runs every sequence of <=3 Writes.',
+            'Trusted: the cursor model. Cursors beyond the window are executed once but not expanded.', 'DESIGN.md section 4 C18'),
+    'C06': (E3, 'model_checking', 'stateless deviation-bounded DFS over the choices of a scripted io.Reader (all chunkings with <=B deviations) on real Marshal/Unmarshal',
+            'Every frame of a message-kind x payload-length x version alphabet is marshalled and checked byte for byte against an independently built header+encoding; every stream of 1..3 frames over a 6-frame alphabet is read back under every reader chunking with <=1 (thorough 2) deviations from "as much as asked" (short read at any byte, data together with io.EOF, one empty read) and every uniform chunk size. Each execution runs the real code to completion; states = choice-tree nodes, transitions = reader answers.',
+            'Trusted: hand-built expected wire bytes. Readers respect the io contract apart from the listed deviations.', 'DESIGN.md section 4 C06'),
+    'C07': (E3, 'fault_enumeration', 'exhaustive enumeration of cut points, writer byte budgets, read-error offsets and a header-field alphabet (corrupt headers in a memory-limited worker process)',
+            'Every cut point of every frame of a 40-frame alphabet x chunkings; every writer byte budget x 2 failure modes; a read error at every offset alone/together with data; a header-size x body-size x version x available-bytes alphabet (body sizes to 2^64-1) executed in a child process under ulimit -v so that a fatal out-of-memory is observed as a dead worker; ReadHeader on every prefix of arbitrary bytes. Expected counts and error causes come from the statement.',
+            'Trusted: the scripted reader/writer. Only the listed fault shapes are injected.', 'DESIGN.md section 4 C07'),
 }
 
 NOT_YET = {
+    'C19': 'check under construction in this round (E4 controlled scheduler over overlay-instrumented source, DESIGN.md section 4 C19); model checking applies, this is not a claim of inapplicability',
 }
 
 
